@@ -357,6 +357,71 @@ def accuracy_bounded(run):
             want = pf_ref(K0)
             if abs(got - want) > 1e-9 * max(1.0, abs(want)) or not np.array_equal(K, K0):
                 fails.append(("pfaffian", n, float(got), float(want), "input changed" if not np.array_equal(K, K0) else ""))
+    # structured / degenerate inputs: exact zeros, decoupled pairs, direct sums in every position (pivoting and the
+    # Householder steps of the hafnian's characteristic polynomial take their special-case branches only on such inputs)
+    def direct_sum(blocks):
+        m = sum(b.shape[0] for b in blocks)
+        out = np.zeros((m, m), dtype=complex)
+        k = 0
+        for b in blocks:
+            out[k:k + b.shape[0], k:k + b.shape[0]] = b
+            k += b.shape[0]
+        return out
+
+    pair = lambda c: np.array([[0, c], [c, 0]], dtype=complex)
+    for nblk in ((2, 4) if run.tier == "quick" else (1, 2, 3, 4, 6)):
+        Bk = rng.normal(size=(nblk, nblk)) + 1j * rng.normal(size=(nblk, nblk))
+        Bk = Bk + Bk.T
+        for blocks in ([Bk, pair(0.7)], [pair(0.7), Bk], [pair(0.3), Bk, pair(-0.6j)], [Bk, pair(0.7), pair(0.2)]):
+            B = direct_sum(blocks)
+            n = B.shape[0]
+            perms = [np.arange(n)] + [rng.permutation(n) for _ in range(1 if run.tier == "quick" else 3)]
+            for pm in perms:
+                Bp = B[np.ix_(pm, pm)]
+                for occ in ((1,) * n, tuple(1 + (i % 2) for i in range(n))):
+                    if sum(occ) % 2 or sum(occ) > 8:
+                        continue
+                    idx = [i for i, o in enumerate(occ) for _ in range(o)]
+                    M = Bp[np.ix_(idx, idx)]
+                    ev += 1
+                    distinct.add(("haf-structured", n, tuple(pm), occ))
+                    got = hafnian_with_reduction(Bp, np.array(occ))
+                    want = haf_ref(M)
+                    if abs(got - want) > 1e-9 * max(1.0, abs(want)):
+                        fails.append(("hafnian", "structured", [b.shape[0] for b in blocks], list(map(int, pm)), occ, complex(got), complex(want)))
+    for n in (2, 3):
+        # anti-diagonal skew matrix, sums of 2x2 blocks in permuted order, zero first super-diagonal
+        cands = []
+        a = rng.normal(size=2 * n)
+        K = np.zeros((2 * n, 2 * n))
+        for i in range(n):
+            K[i, 2 * n - 1 - i] = a[i]
+            K[2 * n - 1 - i, i] = -a[i]
+        cands.append(("anti-diagonal", K))
+        K = np.zeros((2 * n, 2 * n))
+        for i in range(n):
+            K[2 * i, 2 * i + 1], K[2 * i + 1, 2 * i] = a[i], -a[i]
+        for _ in range(2 if run.tier == "quick" else 6):
+            pm = rng.permutation(2 * n)
+            cands.append(("permuted 2x2 blocks", K[np.ix_(pm, pm)]))
+        Kd = rng.normal(size=(2 * n, 2 * n))
+        Kd = Kd - Kd.T
+        for i in range(2 * n - 1):
+            Kd[i, i + 1] = Kd[i + 1, i] = 0.0
+        cands.append(("zero super-diagonal", Kd))
+        Kl = rng.normal(size=(2 * n, 2 * n))
+        Kl = Kl - Kl.T
+        Kl[0, 1:-1] = 0.0
+        Kl[1:-1, 0] = 0.0
+        cands.append(("first row couples only to the last", Kl))
+        for label, K in cands:
+            K0 = K.copy()
+            got = pf_mod.pfaffian(np.ascontiguousarray(K))
+            want = pf_ref(K0)
+            ev += 1
+            distinct.add(("pf-structured", n, label, len(distinct)))
+            if abs(got - want) > 1e-9 * max(1.0, abs(want)):
+                fails.append(("pfaffian", "structured: " + label, n, float(got), float(want)))
     by = {}
     for f in fails:
         by.setdefault(f[0], []).append(f)
